@@ -152,4 +152,66 @@ theorem scalaPos_hit (line col : List Char) (pad : Nat) (R : List Char) (hl : di
   simp only [eat, beq_self_eq_true, if_true]
   exact dashes1_hit pad R
 
+/-! ## the inner `.*` (group 1) -/
+
+/-- what follows the stem's dot on the header line -/
+def scTail (line col : List Char) (pad : Nat) : List Char := "scala".toList ++ scPos line col pad
+
+theorem notMem_scTail {line col : List Char} (pad : Nat) (hl : digitsOK line = true)
+    (hc : digitsOK col = true) (x : Char) (h0 : x ∉ "scala".toList) (h1 : isDigitPy x = false)
+    (h2 : x ≠ ':') (h3 : x ≠ ' ') (h4 : x ≠ '-') : x ∉ scTail line col pad := by
+  intro hm
+  simp only [scTail, List.mem_append] at hm
+  rcases hm with hm | hm
+  · exact h0 hm
+  · exact notMem_scPos pad hl hc x h1 h2 h3 h4 hm
+
+theorem notMem_stem {stem : List Char} (hstem : ∀ x ∈ stem, isClsJ x = true) (x : Char)
+    (hx : isClsJ x = false) : x ∉ stem := by
+  intro hm
+  have := hstem x hm
+  rw [hx] at this
+  cases this
+
+theorem scalaB_hit (total : Nat) (stem line col : List Char) (pad : Nat) (body : List Char)
+    (hstem : ∀ x ∈ stem, isClsJ x = true) (hl : digitsOK line = true) (hc : digitsOK col = true)
+    (hb : body.takeWhile (· != '-') ≠ []) :
+    firstDown0 (scalaAttemptB total (stem ++ ('.' :: scTail line col pad ++ '\n' :: body)))
+        (firstLine (stem ++ ('.' :: scTail line col pad ++ '\n' :: body))).length
+      = some ((stem ++ ".scala".toList, body.takeWhile (· != '-')),
+          total - body.length + (body.takeWhile (· != '-')).length) := by
+  have hXnl : '\n' ∉ scTail line col pad :=
+    notMem_scTail pad hl hc '\n' (by decide) (by decide) (by decide) (by decide) (by decide)
+  have hk : hasInfix ".scala".toList (scTail line col pad) = false :=
+    hasInfix_noHead '.' "scala".toList _
+      (notMem_scTail pad hl hc '.' (by decide) (by decide) (by decide) (by decide) (by decide))
+  have hfl : firstLine (stem ++ ('.' :: scTail line col pad ++ '\n' :: body))
+      = stem ++ '.' :: scTail line col pad := by
+    have e : stem ++ ('.' :: scTail line col pad ++ '\n' :: body)
+        = (stem ++ '.' :: scTail line col pad) ++ '\n' :: body := by simp
+    rw [e]
+    apply firstLine_append_nl
+    intro hm
+    simp only [List.mem_append, List.mem_cons] at hm
+    rcases hm with hm | hm | hm
+    · exact notMem_stem hstem '\n' (by decide) hm
+    · revert hm; decide
+    · exact hXnl hm
+  rw [hfl]
+  apply firstDown0_pick (a0 := stem.length)
+  · simp only [List.length_append]; omega
+  · intro b hb1 hb2
+    unfold scalaAttemptB
+    rw [eat_none_mid ".scala".toList stem '.' _ body b (by decide) hXnl hk hb1
+      (by simp only [List.length_append, List.length_cons] at hb2; omega)]
+  · unfold scalaAttemptB
+    rw [List.drop_left, List.take_left]
+    have e : '.' :: scTail line col pad ++ '\n' :: body
+        = ".scala".toList ++ (scPos line col pad ++ '\n' :: body) := by simp [scTail]
+    rw [e, eat_append]
+    simp only [scalaPos_hit line col pad body hl hc]
+    cases hm : body.takeWhile (· != '-') with
+    | nil => exact absurd hm hb
+    | cons x xs => simp
+
 end Heph.Diag
